@@ -58,7 +58,7 @@ impl Interpreter {
 
                 self.state.clone()
             }
-            ScriptBit::Coinbase(_) => todo!(),
+            ScriptBit::Coinbase(_) => return Err(InterpreterError::InvalidStackOperation("Coinbase scripts cannot be executed")),
         })
     }
 
